@@ -3,6 +3,7 @@ CONSTANTS
   Threads = {1, 2, 3}
   Names = {"b", "n"}
   Cons = {"n"}
+  Local = FALSE
   Variant = "locked"
 INVARIANT P_AsAlone
 INVARIANT P_LockFree
